@@ -1443,6 +1443,39 @@ impl Space for TreeSpace {
         let tag = st.aux.tag;
         let k0 = self.key_of(&before, &before_raw, &held0) ^ (tag as u128);
         if k0 != st.key {
+            // (as in pair.rs: if replaying with the observers called around the last call, as on the
+            // way the state was first reached, reproduces the recorded key, the filesystem is
+            // deterministic but what it reports depends on earlier observer calls: a finding about
+            // the code under test, not a harness defect)
+            if let Some((last, init_hist)) = st.hist.split_last() {
+                for look_first in [false, true] {
+                    let b = self.rebuild(st.init, init_hist);
+                    if look_first {
+                        let _ = snapshot(&b.root, &self.probes);
+                        if need_raw {
+                            let _ = self.raw_snaps(&b);
+                        }
+                    }
+                    let _ = apply_sess(&b, last);
+                    let obs = snapshot(&b.root, &self.probes);
+                    let raws = if need_raw { self.raw_snaps(&b) } else { vec![] };
+                    if self.key_of(&obs, &raws, &held_desc(&b)) ^ (tag as u128) == st.key {
+                        let sig = format!(
+                            "{}|{}|what-is-reported-depends-on-earlier-observer-calls",
+                            self.cfg.label(),
+                            last.name()
+                        );
+                        *e.vio_counts.entry(sig.clone()).or_insert(0) += 1;
+                        e.violations.push(Violation {
+                            property: self.property.clone(),
+                            signature: sig,
+                            summary: format!("history {:?}: the state seen after it depends on whether and when the observers (exists, metadata, read_dir, open+read, walk) were called around its last call", st.hist.iter().map(|o| o.show()).collect::<Vec<_>>()),
+                            replay: self.replay_json(st.init, &st.hist, None, json!({"note": "replay the history once back to back and once with the observers called around the last call"})),
+                        });
+                        return e;
+                    }
+                }
+            }
             eprintln!(
                 "MACHINERY: nondeterministic replay on {} (history {:?})",
                 self.cfg.label(),
